@@ -243,7 +243,7 @@ def c06(tier):
         for pos in (0, 1, 2):
             for m1 in (0, 1, 2):
                 # quick: the cancelation context only for When / WhenNot
-                ctx = -1 if (tier == "thorough" or kind in (0, 1)) else 0
+                ctx = -1 if (tier == "thorough" or kind in (0, 1, 5)) else 0
                 for ex in extras if kind in (2, 3, 5, 7) else (1,):
                     units.append(U(MACH, "VerifC06Wait", weight=5, n=2, schema=0, kind=kind, pos=pos, mut1=m1, auto=0, ctx=ctx, extra=ex))
     # schemas with an Auto / Multi state (5 bits per state: Require Add Remove Multi Auto): partially accepted
@@ -287,7 +287,8 @@ def c11(tier):
             pos += 1
         return code
     cur = [c(("", "", "B", 1), ("", "", "A", 1), ("", "", "", 0)), c(("", "", "", 1), ("A", "", "", 1), ("", "", "", 0)),
-           c(("", "C", "", 1), ("", "", "C", 1), ("", "", "", 0)), c(("", "", "BC", 1), ("", "", "AC", 1), ("", "", "AB", 1))]
+           c(("", "C", "", 1), ("", "", "C", 1), ("", "", "", 0)), c(("", "", "BC", 1), ("", "", "AC", 1), ("", "", "AB", 1)),
+           c(("C", "", "", 0), ("C", "", "", 0), ("", "", "", 0)), c(("C", "", "", 0), ("", "", "", 0), ("B", "", "", 0))]
     for sc in cur:
         for mut in (0, 1, 2):
             units.append(U(MACH, "VerifC11Determinism", weight=6, n=3, schema=sc, mut=mut))
